@@ -609,7 +609,192 @@ def judge_features(ctx, w, case, path, before):
         else:
             fail(ctx, w, f"C19-feature-{k}", f"feature '{k}' does not work on the migrated database as on a new one", case,
                  {"migrated": res.get(k), "new": w.ref_features.get(k)})
+    compare_features(ctx, w, case, L.read_schema(str(path))[0], res, "C19.features.migrated")
     ctx.hit("feature-smoke")
+
+
+# ---------------------------------------------------------------------------------------------
+# row contents: the model with rows (`AF.Migrate.runHistoryR` / `interruptedR`, request "rtree")
+
+
+def enc_value(v):
+    """canonical text of a stored value (the model only moves values); None = NULL"""
+    import hashlib
+    if v is None:
+        return None
+    if isinstance(v, bool):
+        v = int(v)
+    if isinstance(v, int):
+        s = f"i:{v}"
+    elif isinstance(v, float):
+        s = "f:" + v.hex()
+    elif isinstance(v, bytes):
+        s = "b:" + v.hex()
+    else:
+        s = "t:" + str(v)
+    return s if len(s) <= 48 else s[:2] + "#" + hashlib.sha1(s.encode()).hexdigest()[:20]
+
+
+def tables_of_state(state):
+    """{table: [[[column, value], ...] per row in rowid order]} of a real file"""
+    out = {}
+    for t, cols in state["schema"].items():
+        d = state["data"].get(t, {})
+        n = len(d[cols[0]]) if cols and cols[0] in d else 0
+        out[t] = [[[c, enc_value(d[c][i])] for c in cols] for i in range(n)]
+    return out
+
+
+def rows_wire(state):
+    tabs = tables_of_state(state)
+    return {"tables": [[t, state["schema"][t], tabs[t]] for t in sorted(state["schema"])], "rev": L.rev_wire(state["rev"])}
+
+
+def ask_rows(ctx, cfg, state0, depth, crash):
+    """the row-level model's answer for one start state: ({path: node with 'tables' resolved}, crash node)"""
+    req = {"p": "C19", "q": "rtree", "cfg": cfg, "file": None if state0 is None else rows_wire(state0), "depth": depth}
+    if crash is not None:
+        req["crash"] = crash
+    ans = ctx.lean.ask(req)
+    if "driver_error" in ans:
+        return None, ans
+    if not ans.get("file_wf", False):
+        ctx.disagree("C19.rows.wf", {"what": "rows of the file handed to the model do not fit its columns"}, True, False)
+    as_dict = lambda tables: {t: rows for t, _cols, rows in tables}
+    resolved = {}
+    if crash is not None and ans.get("crash"):
+        resolved[""] = as_dict(ans["crash"]["tables"])
+    elif state0 is not None:
+        resolved[""] = tables_of_state(state0)
+    nodes = {}
+    for n in ans["nodes"]:
+        if not n:
+            continue
+        p = n["path"]
+        resolved[p] = resolved.get(p[:-1]) if n["same"] else as_dict(n["tables"])
+        nodes[p] = dict(n, tables=resolved[p])
+    crash_node = ans.get("crash")
+    if crash_node:
+        crash_node = dict(crash_node, tables=as_dict(crash_node["tables"]))
+    return nodes, crash_node
+
+
+def check_moved(ctx, case, moved, before, state, clause):
+    """`logTrack`: the values a column held before the open are found under the name the model computes
+    (RENAME COLUMN), or the column is gone (DROP COLUMN)"""
+    for t, c, c2 in moved:
+        old = (before["data"].get(t) or {}).get(c)
+        if old is None:
+            continue
+        if c2 is None:
+            if c in state["schema"].get(t, []):
+                ctx.disagree(f"{clause}.moved", dict(case, column=[t, c]), "still there", "dropped")
+                return
+        elif (state["data"].get(t) or {}).get(c2) != old:
+            ctx.disagree(f"{clause}.moved", dict(case, column=[t, c, c2]), (state["data"].get(t) or {}).get(c2), old)
+            return
+        ctx.hit("moved-column-checked")
+
+
+def compare_rows(ctx, case, rnode, state, events, clause="C19.rows", before=None):
+    """statements, schema, stamp AND every row of every table of the real file vs the model with rows"""
+    if rnode is None:
+        ctx.disagree(f"{clause}.model-node-missing", case, None, None)
+        return False
+    if not compare_model(ctx, case, rnode, state, events, clause=clause):
+        return False
+    if not rnode.get("wf"):
+        ctx.disagree(f"{clause}.wf", case, True, False)
+        return False
+    impl = tables_of_state(state)
+    model = rnode["tables"]
+    if json.dumps(impl, sort_keys=True) != json.dumps(model, sort_keys=True):
+        bad = sorted(t for t in set(impl) | set(model or {}) if impl.get(t) != (model or {}).get(t))
+        t = bad[0]
+        ctx.disagree(f"{clause}.table-rows", dict(case, table=t), (impl.get(t) or [])[:3], ((model or {}).get(t) or [])[:3])
+        return False
+    if before is not None and rnode.get("moved"):
+        check_moved(ctx, case, rnode["moved"], before, state, clause)
+    ctx.hit("rows-compared")
+    return True
+
+
+def judge_new_columns(ctx, w, case, before, after):
+    """a column (or table) the migration added holds nothing on the rows that were there before - unless it is
+    the new name of a renamed column"""
+    targets = {(t, b) for (t, a), b in w.renames.items()}
+    bad = []
+    for t, cols in after["schema"].items():
+        if t not in before["schema"]:
+            if any(len(v) for v in after["data"].get(t, {}).values()):
+                bad.append([t, "*rows in a new table*"])
+            continue
+        for c in cols:
+            if c not in before["schema"][t] and (t, c) not in targets:
+                if any(v is not None for v in after["data"][t][c]):
+                    bad.append([t, c])
+    if bad:
+        fail(ctx, w, "C19-new-column-not-null", f"columns added by the migration are not NULL on the old rows: {bad[:6]}", case, bad)
+
+
+# ---------------------------------------------------------------------------------------------
+# "all current features work on it": the model's `usable` (request "features") vs using each feature on real files
+
+
+def model_usable(ctx, schema):
+    ans = ctx.lean.ask({"p": "C19", "q": "features", "schema": [[t, schema[t]] for t in sorted(schema)]})
+    return None if "driver_error" in ans else ans
+
+
+def compare_features(ctx, w, case, schema, res, clause):
+    """res: feature -> what feature_smoke got; a feature *works* when it gives what it gives on a new database"""
+    ans = model_usable(ctx, schema)
+    if ans is None:
+        ctx.disagree(f"{clause}.driver", case, None, None)
+        return
+    real = {k: res.get(k) == w.ref_features.get(k) for k in FEATURES}
+    model = {k: bool(ans["usable"].get(k)) for k in FEATURES}
+    if real != model:
+        ctx.disagree(clause, case, {k: [real[k], str(res.get(k))[:80]] for k in FEATURES if real[k] != model[k]},
+                     {k: model[k] for k in FEATURES if real[k] != model[k]})
+    ctx.hit(f"features-compared:{'all' if all(real.values()) else 'some' if any(real.values()) else 'none'}-work")
+
+
+def check_features_table(ctx, w):
+    """the generated needs are what the mappers say now; every feature the harness uses is in the table"""
+    ans = model_usable(ctx, w.orm)
+    if ans is None:
+        ctx.disagree("C19.features.driver", {}, None, None)
+        return
+    live = {f: [list(tc) for tc in need] for f, need in T.feature_needs()}
+    if json.dumps(ans["needs"], sort_keys=True) != json.dumps(live, sort_keys=True) or sorted(live) != sorted(FEATURES):
+        ctx.disagree("C19.generated-table.features", {"what": "feature needs in Generated/C19.lean are not the mappers'"}, live, ans["needs"])
+    if not ans["all"]:
+        ctx.disagree("C19.features.mapping-unusable", {}, True, ans["usable"])
+
+
+def unmigrated_features(ctx, w, variant):
+    """use every feature on the historic file *as it is* (the migration switched off): works exactly where the
+    model says the schema supports it"""
+    f = tmp(w, "raw")
+    build_file(w, f, variant, "none")
+    before = L.read_schema(str(f))
+    case = {"variant": variant, "rev": "none", "label": "features-without-migration"}
+    migrator.migrate = lambda session: None  # shadows the method on this instance only
+    try:
+        try:
+            _snap, res = feature_smoke(f)
+        except Exception as e:
+            res = {k: f"ERR:open:{type(e).__name__}" for k in FEATURES}
+    finally:
+        del migrator.migrate
+    after = L.read_schema(str(f))
+    f.unlink(missing_ok=True)
+    if (after[0], after[1]) != (before[0], before[1]):  # the switch did not hold: nothing to compare
+        ctx.hit("unmigrated-probe-not-isolated")
+        return
+    ctx.case(case, nontrivial=True)
+    compare_features(ctx, w, case, before[0], res, "C19.features.unmigrated")
 
 
 # ---------------------------------------------------------------------------------------------
@@ -634,6 +819,10 @@ def run_tree(ctx, w, variant, rev, depth, cfg, crash=None, smoke="first", only_p
         ctx.disagree("C19.driver", desc, None, ans)
         return
     nodes = {n["path"]: n for n in ans["nodes"] if n}
+    rnodes, rcrash = ask_rows(ctx, cfg, state0, depth, crash)  # the model with rows
+    if rnodes is None:
+        ctx.disagree("C19.driver.rows", desc, None, rcrash)
+        return
     stamped_k = int(rev[3:]) if (rev or "").startswith("id:") else None
     first_role = "fresh" if variant is None else "migrate"
     if variant is not None and state0["rev"] == [w.latest]:
@@ -650,6 +839,7 @@ def run_tree(ctx, w, variant, rev, depth, cfg, crash=None, smoke="first", only_p
         ctx.case(case, nontrivial=True)
         ctx.hit("interrupted-open")
         compare_model(ctx, case, ans["crash"], after, events, clause="C19.interrupted")
+        compare_rows(ctx, case, rcrash, after, events, clause="C19.rows.interrupted", before=state0)
         before = after
         stamped_k = None  # what follows is judged by its net effect
 
@@ -675,6 +865,9 @@ def run_tree(ctx, w, variant, rev, depth, cfg, crash=None, smoke="first", only_p
                 compare_model(ctx, case, nodes[p], after, events)
             else:
                 ctx.disagree("C19.model-node-missing", case, None, None)
+            compare_rows(ctx, case, rnodes.get(p), after, events, before=before)
+            if role == "migrate" and not err:
+                judge_new_columns(ctx, w, case, before, after)
             judge_session(ctx, w, case, before, after, events, err, role, stamped_k if len(p) == 1 else None)
             if role != "noop" and variant is not None and (smoke == "all" or (smoke == "first" and not c)):
                 judge_features(ctx, w, case, f, state0)  # expectations: what the file held originally
@@ -772,6 +965,12 @@ def run(ctx):
         js = range(0, nstmt) if thorough else ctx.rng.sample(range(0, nstmt), k=2)
         for j in js:
             run_tree(ctx, w, variant, rev, 2, cfg, crash=j, smoke="none")
+    # features on the historic files without migration (two-sided tie of `usable`)
+    check_features_table(ctx, w)
+    names = list(w.variants)
+    fixed = [n for n in ("A8", "F") if n in names]  # a shape on which some features work and others do not; a current one
+    for variant in (names if thorough else fixed + ctx.rng.sample([n for n in names if n not in fixed], k=min(len(names) - len(fixed), 5))):
+        unmigrated_features(ctx, w, variant)
     ctx.notes["exhaustive"] = bool(thorough)
     ctx.notes["open_routes"] = Rec.routes
     ctx.notes["history_depth"] = depth
